@@ -408,8 +408,10 @@ class Element(Node):
             for arg in args.keys():
                 self.setAttribute(arg, args[arg])
         else:
-            for arg in args.keys():  # If any attribute is allowed
-                self.attributes[arg]=args[arg]
+            # No attribute table for this element: like setAttribute(), only
+            # (namespace, localpart) keys can be stored, so a keyword is refused
+            for arg in args.keys():
+                self.setAttribute(arg, args[arg])
         if check_grammar:
             # Test that all mandatory attributes have been added.
             required = grammar.required_attributes.get(self.qname)
